@@ -95,9 +95,13 @@ WFBroken(T) ==
 WellFormed(T) == WFBroken(T) = {}
 
 -----------------------------------------------------------------------------
-(* The semantic view of a well-formed tree: parent function, ancestor sets, *)
-(* tips, tip names below every node.  Computed once per tree (TLCEval        *)
-(* materialises the tables).                                                *)
+(* The semantic view of a tree: what every property predicate is phrased    *)
+(* with.  It is representation independent: View(T) builds it from a        *)
+(* (well-formed) pointer structure as logged from the real code, MView(m)   *)
+(* in TreeOps.tla builds it from a state of the operational model.          *)
+(*   nodes, root, par (0 for the root), nm, deg (number of neighbours),     *)
+(*   br (branch above a node: [len, sup, pv, id]), anc (ancestor sets,      *)
+(*   node included), tips, names, below (tip names under a node)            *)
 
 View(T) ==
   LET par   == TLCEval(ParOf(T))
@@ -105,18 +109,22 @@ View(T) ==
       anc   == TLCEval([n \in NodeIds(T) |-> ChainR(par, T.root, n, Len(T.N))])
       tips  == {n \in NodeIds(T) : Deg(T, n) = 1 /\ n # T.root}
       below == TLCEval([n \in NodeIds(T) |-> {T.N[t].nm : t \in {u \in tips : n \in anc[u]}}])
-  IN  [T |-> T, par |-> par, pe |-> pe, anc |-> anc, tips |-> tips,
-       names |-> {T.N[t].nm : t \in tips}, below |-> below]
+  IN  [nodes |-> NodeIds(T), root |-> T.root, par |-> par,
+       nm  |-> [n \in NodeIds(T) |-> T.N[n].nm],
+       deg |-> [n \in NodeIds(T) |-> Deg(T, n)],
+       br  |-> [n \in NodeIds(T) |-> IF n = T.root THEN [len |-> NIL, sup |-> NIL, pv |-> NIL, id |-> 0, cm |-> <<>>]
+                                     ELSE [len |-> T.E[pe[n]].len, sup |-> T.E[pe[n]].sup, pv |-> T.E[pe[n]].pv, id |-> pe[n], cm |-> T.E[pe[n]].cm]],
+       anc |-> anc, tips |-> tips, names |-> {T.N[t].nm : t \in tips}, below |-> below]
 
-NonRoot(V)     == NodeIds(V.T) \ {V.T.root}
-Inner(V)       == NodeIds(V.T) \ V.tips               \* includes the root
+NonRoot(V)     == V.nodes \ {V.root}
+Inner(V)       == V.nodes \ V.tips               \* includes the root
 UniqueNames(V) == Cardinality(V.names) = Cardinality(V.tips)
-BrOf(V, n)     == V.T.E[V.pe[n]]                       \* the branch above a non-root node
+BrOf(V, n)     == V.br[n]                         \* the branch above a non-root node
 Children(V, n) == {m \in NonRoot(V) : V.par[m] = n}
-RootDeg(V)     == Deg(V.T, V.T.root)
+RootDeg(V)     == V.deg[V.root]
 IsRooted(V)    == RootDeg(V) = 2
 \* inner nodes other than the root with a single child
-SingleNodes(V) == {n \in NonRoot(V) : Deg(V.T, n) = 2}
+SingleNodes(V) == {n \in NonRoot(V) : V.deg[n] = 2}
 \* the domain of the edit properties: root with >= 2 children, unique tip names
 InDomain(V)    == RootDeg(V) >= 2 /\ UniqueNames(V) /\ Cardinality(V.tips) >= 2
 
@@ -140,14 +148,12 @@ SingleLenRaw(V) ==
   LET S == {s \in Splits(V) : Cardinality(Carriers(V, s)) = 1}
   IN  [s \in S |-> BrOf(V, CHOOSE n \in Carriers(V, s) : TRUE).len]
 
-TipByName(V) == [nm \in V.names |-> CHOOSE t \in V.tips : V.T.N[t].nm = nm]
+TipByName(V) == [nm \in V.names |-> CHOOSE t \in V.tips : V.nm[t] = nm]
 
 \* nodes whose parent branch lies on the path between a and b
 PathNodes(V, a, b) == SymDiff(V.anc[a], V.anc[b])
-DistBy(V, a, b, w(_)) == MapThenSumSet(w, PathNodes(V, a, b))
-LenW(V, n)  == Num(BrOf(V, n).len)
 Dist(V, a, b) == MapThenSumSet(LAMBDA n : Num(BrOf(V, n).len), PathNodes(V, a, b))
-RootDist(V, a) == MapThenSumSet(LAMBDA n : Num(BrOf(V, n).len), V.anc[a] \ {V.T.root})
+RootDist(V, a) == MapThenSumSet(LAMBDA n : Num(BrOf(V, n).len), V.anc[a] \ {V.root})
 
 \* tip-name pair -> path length
 DistMat(V) ==
@@ -163,14 +169,20 @@ InducedNT(V, K) == {r \in {RestrictSplit(s, K) : s \in Splits(V)} : Cardinality(
 
 Binary(V) ==
   /\ RootDeg(V) \in {2, 3}
-  /\ \A n \in NonRoot(V) : Deg(V.T, n) \in {1, 3}
+  /\ \A n \in NonRoot(V) : V.deg[n] \in {1, 3}
 
 \* Canonical rooted form: forgets ids and child order, keeps everything else that is observable.
-\* A bag would be needed for single-child chains with identical decorations; the count field covers it.
 Canon(V) ==
-  [root  |-> [nm |-> V.T.N[V.T.root].nm, deg |-> RootDeg(V)],
-   nn    |-> Len(V.T.N),
-   nodes |-> {[c |-> V.below[n], nm |-> V.T.N[n].nm, len |-> BrOf(V, n).len,
-               sup |-> BrOf(V, n).sup, pv |-> BrOf(V, n).pv, deg |-> Deg(V.T, n)] : n \in NonRoot(V)}]
+  [root  |-> [nm |-> V.nm[V.root], deg |-> RootDeg(V)],
+   nn    |-> Cardinality(V.nodes),
+   nodes |-> {[c |-> V.below[n], nm |-> V.nm[n], len |-> BrOf(V, n).len,
+               sup |-> BrOf(V, n).sup, pv |-> BrOf(V, n).pv, deg |-> V.deg[n]] : n \in NonRoot(V)}]
+
+\* Canonical unrooted form: split -> (total length, support when carried by one inner branch), plus
+\* rootedness; forgets where the (pseudo-)root is.
+UCanon(V) ==
+  [rooted |-> IsRooted(V),
+   len    |-> SplitLen(V),
+   sup    |-> SingleSup(V)]
 
 =============================================================================
